@@ -115,6 +115,7 @@ var propOverrides = map[string]func(*propCfg){
 	"C07": func(c *propCfg) { c.quickRuns, c.quickSecs = 700, 110 },
 	"C13": func(c *propCfg) { c.quickRuns, c.quickSecs = 600, 110 },
 	"C14": func(c *propCfg) { c.quickRuns, c.quickSecs = 1200, 110 },
+	"C21": func(c *propCfg) { c.quickRuns, c.quickSecs = 1500, 100 },
 	"C22": func(c *propCfg) { c.quickRuns, c.quickSecs = 1500, 110 },
 	"C23": func(c *propCfg) { c.quickRuns, c.quickSecs = 800, 100 },
 	"C41": func(c *propCfg) {
